@@ -46,6 +46,8 @@ type target struct {
 	ErrorResult bool              `json:"error_result"` // (T, error) → Option T
 	Ctors       map[string]string `json:"ctors"`        // qualified function → "pair": a constructor call becomes the tuple of its arguments
 	Fuel        map[string]string `json:"fuel"`         // loop name → Lean Nat expression
+	Funcs       map[string]string `json:"funcs"`        // called function (as written) → name of a Lean parameter of type `List Str → M Str` standing for it (its arguments are handed over as one list)
+	OutParams   []string          `json:"out_params"`   // parameters the function writes to (an io.Writer): threaded through as text, returned as the result
 	Props       []string          `json:"props"`
 }
 
@@ -120,7 +122,7 @@ func (f *fn) leanType(t types.Type) string {
 		}
 		q := n.Obj().Pkg().Path() + "." + n.Obj().Name()
 		switch q {
-		case "bytes.Buffer", "strings.Builder":
+		case "bytes.Buffer", "strings.Builder", "io.Writer":
 			return "Str"
 		}
 	}
@@ -161,6 +163,8 @@ func (f *fn) zero(t types.Type) string {
 		return "(0 : Int)"
 	case lt == "Char":
 		return "(Char.ofNat 0)"
+	case strings.HasPrefix(lt, "(Option "):
+		return "(none : " + lt + ")"
 	}
 	bad("no zero value for %s", t)
 	return ""
@@ -329,6 +333,16 @@ func (f *fn) expr(e ast.Expr, pre *[]string) string {
 			*pre = append(*pre, "    pure "+r, "  else", "    "+short)
 			return t
 		}
+		if id, ok := x.Y.(*ast.Ident); ok && id.Name == "nil" && (x.Op == token.EQL || x.Op == token.NEQ) {
+			// a nilable pointer is an Option
+			if lt := f.leanType(f.info.TypeOf(x.X)); strings.HasPrefix(lt, "(Option ") {
+				if x.Op == token.EQL {
+					return "(" + f.expr(x.X, pre) + ").isNone"
+				}
+				return "(" + f.expr(x.X, pre) + ").isSome"
+			}
+			bad("comparison with nil of %s", f.text(x.X))
+		}
 		l := f.expr(x.X, pre)
 		r := f.expr(x.Y, pre)
 		lt := f.leanType(f.info.TypeOf(x.X))
@@ -439,8 +453,27 @@ func (f *fn) call(x *ast.CallExpr, pre *[]string) string {
 		}
 		bad("conversion %s", f.text(x))
 	}
+	if id, ok := x.Fun.(*ast.Ident); ok {
+		if pn, ok := f.t.Funcs[id.Name]; ok {
+			// a callee that is not translated: a parameter of the translation (the theorems hold for every such function)
+			var arg string
+			if x.Ellipsis.IsValid() && len(x.Args) == 1 {
+				arg = f.expr(x.Args[0], pre)
+			} else if !x.Ellipsis.IsValid() {
+				arg = "[" + strings.Join(f.args(x, pre), ", ") + "]"
+			} else {
+				bad("call %s", f.text(x))
+			}
+			t := f.tmp()
+			*pre = append(*pre, "let "+t+" : "+f.leanType(f.info.TypeOf(x))+" ← "+pn+" "+arg)
+			return t
+		}
+	}
 	name, fo := f.callee(x)
 	switch name {
+	case "slices.Index":
+		a := f.args(x, pre)
+		return "(Go.sliceIndex " + a[0] + " " + a[1] + ")"
 	case "builtin.len":
 		return "(Go.len " + f.expr(x.Args[0], pre) + ")"
 	case "builtin.append":
@@ -492,6 +525,8 @@ func (f *fn) call(x *ast.CallExpr, pre *[]string) string {
 		return f.expr(x.Fun.(*ast.SelectorExpr).X, pre)
 	case "bytes.Buffer.Len", "strings.Builder.Len":
 		return "(Go.len " + f.expr(x.Fun.(*ast.SelectorExpr).X, pre) + ")"
+	case "fmt.Sprintf":
+		return f.sprintf(x.Args, pre)
 	case "slices.Sorted":
 		if in, ok := x.Args[0].(*ast.CallExpr); ok {
 			if n2, _ := f.callee(in); n2 == "maps.Keys" {
@@ -509,18 +544,61 @@ func (f *fn) call(x *ast.CallExpr, pre *[]string) string {
 				bad("spread call of a translated function")
 			}
 			sig := fo.Type().(*types.Signature)
+			if sig.Recv() != nil {
+				sel := x.Fun.(*ast.SelectorExpr)
+				rv := f.expr(sel.X, pre)
+				if strings.HasPrefix(f.leanType(f.info.TypeOf(sel.X)), "(Option ") {
+					d := f.tmp()
+					*pre = append(*pre, "let "+d+" ← Go.deref "+rv) // a method call through a nil pointer panics
+					rv = d
+				}
+				a = append([]string{rv}, a...)
+			}
 			if sig.Variadic() {
 				n := sig.Params().Len() - 1
 				a = append(a[:n:n], "["+strings.Join(a[n:], ", ")+"]")
 			}
 			tmp := f.tmp()
 			rt := f.resultType(sig, t)
-			*pre = append(*pre, "let "+tmp+" : "+rt+" ← "+leanName(t)+" "+strings.Join(append(append([]string{}, t.ExtraArgs...), a...), " "))
+			pref := t.ExtraArgs
+			if sig.Recv() != nil {
+				pref = nil // the receiver stands for what the method's extra parameters abstract
+			}
+			*pre = append(*pre, "let "+tmp+" : "+rt+" ← "+leanName(t)+" "+strings.Join(append(append([]string{}, pref...), a...), " "))
 			return tmp
 		}
 	}
 	bad("call %s (%s) at %s", f.text(x), name, f.fset.Position(x.Pos()))
 	return ""
+}
+
+// sprintf: a format that is a constant and uses no verb but %s becomes the concatenation of its pieces and arguments
+func (f *fn) sprintf(args []ast.Expr, pre *[]string) string {
+	tv, ok := f.info.Types[args[0]]
+	if !ok || tv.Value == nil {
+		bad("format %s is not a constant", f.text(args[0]))
+	}
+	format := constant.StringVal(tv.Value)
+	pieces := strings.Split(format, "%s")
+	if strings.Contains(strings.Join(pieces, ""), "%") || len(pieces) != len(args) {
+		bad("format %q: only %%s verbs, one per argument", format)
+	}
+	var parts []string
+	for i, piece := range pieces {
+		if piece != "" {
+			parts = append(parts, strLit(piece))
+		}
+		if i+1 < len(args) {
+			if lt := f.leanType(f.info.TypeOf(args[i+1])); lt != "Str" {
+				bad("%%s argument of type %s", lt)
+			}
+			parts = append(parts, f.expr(args[i+1], pre))
+		}
+	}
+	if len(parts) == 0 {
+		return "([] : Str)"
+	}
+	return "(" + strings.Join(parts, " ++ ") + ")"
 }
 
 func leanName(t *target) string {
@@ -688,6 +766,14 @@ func (f *fn) assigned(outer token.Pos, nodes ...ast.Node) []*types.Var {
 			case *ast.CallExpr:
 				if sel, ok := y.Fun.(*ast.SelectorExpr); ok && builderWrites[sel.Sel.Name] && isBuilder(f.info.TypeOf(sel.X)) {
 					add(f.rootVar(sel.X))
+				}
+				switch n, _ := f.callee(y); n {
+				case "fmt.Fprintf", "sort.Strings", "slices.Reverse":
+					add(f.rootVar(y.Args[0]))
+				case "sort.Sort":
+					if conv, ok := y.Args[0].(*ast.CallExpr); ok && len(conv.Args) == 1 {
+						add(f.rootVar(conv.Args[0]))
+					}
 				}
 			case *ast.FuncLit:
 				bad("function literal")
@@ -870,6 +956,15 @@ func (f *fn) stmts(list []ast.Stmt, k konts) []string {
 				if !ok {
 					bad("multi-value assignment from %s", f.text(x.Rhs[0]))
 				}
+				allBlank := true
+				for _, l := range x.Lhs {
+					if id, ok := l.(*ast.Ident); !ok || id.Name != "_" {
+						allBlank = false
+					}
+				}
+				if allBlank && f.writeCall(call, &out) {
+					break
+				}
 				t := f.expr(call, &out)
 				for j, l := range x.Lhs {
 					proj := t
@@ -894,6 +989,9 @@ func (f *fn) stmts(list []ast.Stmt, k konts) []string {
 			call, ok := x.X.(*ast.CallExpr)
 			if !ok {
 				bad("expression statement %s", f.text(x))
+			}
+			if f.writeCall(call, &out) {
+				break
 			}
 			if sel, ok := call.Fun.(*ast.SelectorExpr); ok && builderWrites[sel.Sel.Name] && isBuilder(f.info.TypeOf(sel.X)) {
 				b := f.expr(sel.X, &out)
@@ -928,10 +1026,15 @@ func (f *fn) stmts(list []ast.Stmt, k konts) []string {
 		case *ast.SwitchStmt:
 			return append(out, f.stmts(append([]ast.Stmt{f.switchToIf(x)}, rest...), k)...)
 		case *ast.IfStmt:
-			if x.Init != nil {
-				out = append(out, f.stmts1(x.Init)...)
+			var cond string
+			if pi := f.parseIntTest(x, &out); pi != "" {
+				cond = pi
+			} else {
+				if x.Init != nil {
+					out = append(out, f.stmts1(x.Init)...)
+				}
+				cond = f.expr(x.Cond, &out)
 			}
-			cond := f.expr(x.Cond, &out)
 			els := elseList(x.Else)
 			thenT := transfers(x.Body)
 			elseT := x.Else != nil && transfers(x.Else)
@@ -1004,6 +1107,72 @@ func (f *fn) stmts(list []ast.Stmt, k konts) []string {
 		}
 	}
 	return append(out, k.fall)
+}
+
+// parseIntTest: `if _, err := strconv.ParseInt(X, 10, 64); err == nil` asks whether X is a decimal 64-bit integer
+func (f *fn) parseIntTest(x *ast.IfStmt, out *[]string) string {
+	as, ok := x.Init.(*ast.AssignStmt)
+	if !ok || as.Tok != token.DEFINE || len(as.Lhs) != 2 || len(as.Rhs) != 1 {
+		return ""
+	}
+	call, ok := as.Rhs[0].(*ast.CallExpr)
+	if !ok {
+		return ""
+	}
+	if n, _ := f.callee(call); n != "strconv.ParseInt" || len(call.Args) != 3 {
+		return ""
+	}
+	for i, want := range []int64{10, 64} {
+		tv := f.info.Types[call.Args[i+1]]
+		if v, ok := constant.Int64Val(constant.ToInt(tv.Value)); tv.Value == nil || !ok || v != want {
+			return ""
+		}
+	}
+	first, _ := as.Lhs[0].(*ast.Ident)
+	errId, _ := as.Lhs[1].(*ast.Ident)
+	cmp, _ := x.Cond.(*ast.BinaryExpr)
+	if first == nil || first.Name != "_" || errId == nil || cmp == nil || (cmp.Op != token.EQL && cmp.Op != token.NEQ) {
+		return ""
+	}
+	l, _ := cmp.X.(*ast.Ident)
+	r, _ := cmp.Y.(*ast.Ident)
+	if l == nil || r == nil || l.Name != errId.Name || r.Name != "nil" {
+		return ""
+	}
+	t := "(Go.parsesInt " + f.expr(call.Args[0], out) + ")"
+	if cmp.Op == token.NEQ {
+		t = "(!" + t + ")"
+	}
+	return t
+}
+
+// writeCall: calls that are statements because of what they do to an argument — fmt.Fprintf(w, …) appends to the
+// writer, sort.Sort(sort.StringSlice(x)) / sort.Strings(x) sort the slice
+func (f *fn) writeCall(call *ast.CallExpr, out *[]string) bool {
+	name, _ := f.callee(call)
+	switch name {
+	case "fmt.Fprintf":
+		if f.leanType(f.info.TypeOf(call.Args[0])) != "Str" {
+			return false
+		}
+		w := f.expr(call.Args[0], out)
+		f.assign(call.Args[0], "("+w+" ++ "+f.sprintf(call.Args[1:], out)+")", out)
+		return true
+	case "sort.Strings":
+		f.assign(call.Args[0], "(Go.sortStrs "+f.expr(call.Args[0], out)+")", out)
+		return true
+	case "slices.Reverse":
+		f.assign(call.Args[0], "("+f.expr(call.Args[0], out)+").reverse", out)
+		return true
+	case "sort.Sort":
+		if conv, ok := call.Args[0].(*ast.CallExpr); ok {
+			if tv, ok := f.info.Types[conv.Fun]; ok && tv.IsType() && tv.Type.String() == "sort.StringSlice" {
+				f.assign(conv.Args[0], "(Go.sortStrs "+f.expr(conv.Args[0], out)+")", out)
+				return true
+			}
+		}
+	}
+	return false
 }
 
 // stmts1 compiles one simple statement without a terminal (an `if` / `for` init)
@@ -1139,6 +1308,17 @@ func (f *fn) rangeLoop(x *ast.RangeStmt, rest []ast.Stmt, k konts) ([]string, bo
 	xt := f.info.TypeOf(x.X)
 	var elemTy, list string
 	isMap := false
+	if call, ok := x.X.(*ast.CallExpr); ok {
+		if n, _ := f.callee(call); n == "slices.Backward" {
+			// last element first; the index variable is not supported
+			if id, ok := x.Key.(*ast.Ident); x.Key != nil && (!ok || id.Name != "_") {
+				bad("index variable of a backward range")
+			}
+			st := f.info.TypeOf(call.Args[0]).Underlying().(*types.Slice)
+			elemTy, list = f.leanType(st.Elem()), "("+f.expr(call.Args[0], &pre)+").reverse"
+			xt = st
+		}
+	}
 	switch u := xt.Underlying().(type) {
 	case *types.Basic:
 		if u.Info()&types.IsString != 0 {
@@ -1150,7 +1330,9 @@ func (f *fn) rangeLoop(x *ast.RangeStmt, rest []ast.Stmt, k konts) ([]string, bo
 			}
 		}
 	case *types.Slice:
-		elemTy, list = f.leanType(u.Elem()), f.expr(x.X, &pre)
+		if list == "" {
+			elemTy, list = f.leanType(u.Elem()), f.expr(x.X, &pre)
+		}
 	case *types.Map:
 		isMap = true
 		elemTy, list = "("+f.leanType(u.Key())+" × "+f.leanType(u.Elem())+")", f.expr(x.X, &pre)
@@ -1391,6 +1573,27 @@ func (f *fn) translate() string {
 		}
 	}
 	k := konts{fall: "pure " + f.namedTuple(), ret: func(v string) string { return "pure " + v }}
+	if len(f.t.OutParams) > 0 {
+		// the function writes to these parameters and returns nothing: their final content is the result
+		if sig.Results().Len() != 0 {
+			bad("out_params on a function with results")
+		}
+		var ns, ts []string
+		for i := 0; i < sig.Params().Len(); i++ {
+			for _, o := range f.t.OutParams {
+				if sig.Params().At(i).Name() == o {
+					ns = append(ns, f.nameOf(sig.Params().At(i)))
+					ts = append(ts, f.leanType(sig.Params().At(i).Type()))
+				}
+			}
+		}
+		tup, tty := strings.Join(ns, ", "), strings.Join(ts, " × ")
+		if len(ns) > 1 {
+			tup, tty = "("+tup+")", "("+tty+")"
+		}
+		f.resTy = tty
+		k = konts{fall: "pure " + tup, ret: func(v string) string { return "pure " + tup }}
+	}
 	body := append(head, f.stmts(f.decl.Body.List, k)...)
 	def := []string{"def " + f.leanFn + " " + strings.Join(binders, " ") + " : M " + f.resTy + " := do"}
 	def = append(def, ind(body, 2)...)
